@@ -677,3 +677,10 @@ func (r *Run) spawn(fr *frame, fn value, args []value) {
 	}
 	r.threads.spawn(r, fr, fn, args)
 }
+
+// lazyInit records that a package outside the configured set was initialised on first use.
+func (r *Run) lazyInit(path string) {
+	if !r.replaying() {
+		r.reached["package initialised on first use: "+path]++
+	}
+}
